@@ -1,5 +1,9 @@
 """C02 - reported observations satisfy all sensor constraints; misses state a true reason.
 
+Sensors are built directly from their configuration and through the sensor_addition event round trip (families A-F with
+a trailing ``event0`` / ``event60`` in the work item); family M replays multi-step pointing histories of real Scenarios
+with two and three tasking engines.
+
 Lattice explorer driving the real ``Sensor.collectObservations`` of real Optical / Radar / AdvRadar sensors (built by
 ``sensorFactory`` from the pydantic configs) hosted on real ``SensingAgent`` objects (``SensingAgent.fromConfig`` +
 ``dynamicsFactory`` + a real ``ScenarioClock``) against real ``TargetAgent`` objects.  Every announced lattice is
@@ -69,14 +73,32 @@ RULE = (
     "primary is believed to be; after every step each pair of the engine's decision matrix must have exactly one record "
     "in engine.observations xor engine.missed_observations, at the end each tasks row with the decision set and each "
     "decision-matrix pair of each step exactly one row in observations xor missed_observations (and no miss row without "
-    "a tasked attempt), each row judged by the oracle on the truth states. Every returned record is compared with the "
-    "independent oracle's failing-constraint set. "
+    "a tasked attempt), each row judged by the oracle on the truth states; (X) the sensor of families A, B, C, D, E "
+    "(limiting magnitude) and F is also created THROUGH THE EVENT ROUND TRIP - configuration -> SensorAdditionEventConfig "
+    "-> SensorAdditionEvent.fromConfig -> events row (+ AgentModel dependency) -> handleRelevantEvents of the step "
+    "window -> handleEvent -> Scenario.addSensor, handled at scenario time 0 or 60 s - for every sensor kind on ground "
+    "and space hosts x azimuth masks that wrap through north (20 / 120 / 260 deg wide) or do not x elevation masks x "
+    "range limits x conic / rectangular fields of view x slew rates x every radar parameter variant x limiting "
+    "magnitudes x correlated covariances; the oracle's constraints come from the requested configuration, never from "
+    "the live sensor, the same lattices judge every observation and miss reason, and every configured constraint is "
+    "compared after the round trip (against the configuration and, attribute by attribute, against a twin built "
+    "directly); (M) real Scenarios with two and three tasking engines in every engine order (the engine of a sensor "
+    "first / middle / last), one or two sensors per engine, a sensor joining a non-last engine through a "
+    "sensor_addition event (wrapping mask), slew rates of 12 and 21 deg per step on belts of geostationary targets "
+    "spaced ~10 deg on the sensor's sky plus one 55 deg away, stepped one step at a time for 6 (quick) / 10 steps: the "
+    "oracle replays the pointing history of every sensor from the records of every step (decision matrices, engine "
+    "observation / miss lists, predicted estimates, truth states); after every step boresight and time_last_tasked of "
+    "every SensingAgent must be those of its last feasible tasked attempt (unchanged when idle or refused), every "
+    "reported observation must pass every constraint including reachability from the replayed previous pointing within "
+    "slew_rate x elapsed time, every miss must state a failing constraint, and the database rows must be the records of "
+    "the steps. Every returned record is compared with the independent oracle's failing-constraint set. "
     "non-trivial = some constraint margin of the primary or a background target is within 5 % of its scale (2 deg for "
     "mask / cone angles, 5 % of the FoV half width, 5 % of the range, 20 % of the received power, 0.1 mag, 2 solar radii "
     "from the umbra edge, 100 km sight-line clearance), or the slew is infeasible, or a background target is present, "
     "or the noise vector is non-zero; API-level cases (G, H, S) are non-trivial when they exercise a seam, the zenith, "
-    "a permuted label order, a rejected prediction, a multi-sensor job, a merged job result or a tasked attempt of a "
-    "Scenario step; distinct by construction (lattice points)."
+    "a permuted label order, a rejected prediction, a multi-sensor job, a merged job result, a tasked attempt of a "
+    "Scenario step, an attribute of a sensor after the event round trip or a sensor-step of a multi-engine pointing "
+    "history; distinct by construction (lattice points)."
 )
 ASSUMPTIONS = [
     "inertial -> Earth-fixed rotation (eci2ecef / ecef2eci) is the library's (subject of C04); the horizon frame, "
@@ -92,6 +114,10 @@ ASSUMPTIONS = [
     "elevation_range is order independent (as documented in SensorConfigBase)",
     "the library's geodetic latitude (ecef2lla, C04) is right to 1e-10 rad (measured <= 5.4e-12 on the hosts used)",
     "inputs within the derived rounding band of a threshold are classified either-way (bands in c02_geom.py)",
+    "a sensor that joins at scenario time t has a slew budget that starts at t (it was not tasked before it existed)",
+    "multi-engine histories: the commanded pointing of a tasked attempt is the filter's predicted state of that step "
+    "(UnscentedKalmanFilter.pred_x, what the engine hands to the job as the estimate); 'no limit' range settings are "
+    "spelt None, 0 km or infinity",
 ]
 EXPECT_MIN_NONTRIVIAL = 10000
 
@@ -163,13 +189,15 @@ def _host_of(name):
 class World:
     """One real sensing agent (sensor built by sensorFactory) on a real clock, plus a pool of real target agents."""
 
-    def __init__(self, kind, host, epoch, over=None, t_obs=T_OBS, pool=3, estimate=False):
+    def __init__(self, kind, host, epoch, over=None, t_obs=T_OBS, pool=3, estimate=False, via=None):
         over = dict(over or {})
-        self.kind, self.host, self.over = kind, host, over
+        self.kind, self.host, self.over, self.via = kind, host, over, via
         self.start = epoch if isinstance(epoch, datetime) else EPOCHS[epoch]
         scen.fresh()
         setDBPath("sqlite://")
         self.clock = ScenarioClock(self.start, 10 * DT_STEP, DT_STEP)
+        # scenario time at which the sensing agent comes into being (0 unless a sensor_addition event is handled later)
+        self.t_origin = float(VIA[via]) if via else 0.0
         base = scen.config(self.start, 10, [scen.engine(1, [scen.target_eci(10001, *scen.LEO_A)],
                                                         [scen.ground_sensor(20001, 10.0, 20.0)])], physics=int(DT_STEP))
         self.scfg = ScenarioConfig(**base)
@@ -190,10 +218,14 @@ class World:
             cfg = scen.space_sensor(20001, pos, vel, kind=kind, fov=fov_cfg)
             cfg["sensor"].update(sensor_over)
         self.sensor_cfg = cfg["sensor"]
+        self.agent_cfg = cfg
         sen_cfg = SensingAgentConfig(**cfg)
         prop = self.scfg.propagation
-        dyn = dynamicsFactory(sen_cfg, prop, self.scfg.geopotential, self.scfg.perturbations, self.clock)
-        self.sa = SensingAgent.fromConfig(sen_cfg, self.clock, dyn, prop)
+        if via:
+            self.sa = _agent_through_event(self, cfg)
+        else:
+            dyn = dynamicsFactory(sen_cfg, prop, self.scfg.geopotential, self.scfg.perturbations, self.clock)
+            self.sa = SensingAgent.fromConfig(sen_cfg, self.clock, dyn, prop)
         self.sensor = self.sa.sensors
         self.space = h[0] == "space"
         # the oracle's view of the sensor: taken from the configuration that was requested, never from the object
@@ -246,10 +278,10 @@ class World:
     # -- move every agent to scenario time t the way the propagation step does (time first, then state)
     def goto(self, t):
         t = float(t)
-        if t == 0.0:
+        if t == self.t_origin:
             new = self.state0.copy()
         else:
-            new = np.asarray(self.sa.dynamics.propagate(ScenarioTime(0.0), ScenarioTime(t), self.state0), dtype=float)
+            new = np.asarray(self.sa.dynamics.propagate(ScenarioTime(self.t_origin), ScenarioTime(t), self.state0), dtype=float)
         self.sa.time = ScenarioTime(t)
         self.sa.eci_state = new
         for tg in self.targets:
@@ -289,6 +321,199 @@ class World:
             east = east / n if n > 1e-9 * r else np.array([0.0, 1.0, 0.0])
             vel = math.sqrt(MU / max(r, 1.0)) * (0.96 * east + 0.05 * pos / r) + np.array([0.0, 0.0, 0.37])
         return np.concatenate([pos, np.asarray(vel, dtype=float)])
+
+
+# ------------------------------------------------------------------------------------------------ event round trip
+# how the sensing agent of a World comes into being: None = SensingAgent.fromConfig on the configuration itself (the way
+# ScenarioBuilder builds the sensors of an engine's sensor set); "event0" / "event60" = through a `sensor_addition` event
+# whose start time is one step after scenario time 0 / 60 s, i.e. the event is handled (Scenario.stepForward handles the
+# SCENARIO_STEP events of the window (t, t + dt] before the clock ticks) while the clock shows 0 / 60 s.
+VIA = {"event0": 0.0, "event60": 60.0}
+ENGINE_ID = 1
+
+
+def _agent_through_event(W, agent_cfg):
+    """configuration -> SensorAdditionEventConfig -> SensorAdditionEvent.fromConfig (Event.concreteFromConfig) -> row of
+    the events table (with its AgentModel dependency, inserted the way ScenarioBuilder._loadEventsIntoDatabase does) ->
+    handleRelevantEvents(window of the step) -> SensorAdditionEvent.handleEvent -> Scenario.addSensor (on a Scenario
+    object that has exactly what addSensor uses: the real clock, the scenario configuration, a real tasking engine) ->
+    the live SensingAgent.  Everything between the configuration and the agent is the library's code."""
+    import logging  # noqa: PLC0415
+
+    from resonaate.data import getDBConnection  # noqa: PLC0415
+    from resonaate.data.events import Event, EventScope, handleRelevantEvents  # noqa: PLC0415
+    from resonaate.physics.time.stardate import datetimeToJulianDate  # noqa: PLC0415
+    from resonaate.scenario.config.event_configs import SensorAdditionEventConfig  # noqa: PLC0415
+    from resonaate.scenario.scenario import Scenario  # noqa: PLC0415
+    from resonaate.tasking.decisions import decisionFactory  # noqa: PLC0415
+    from resonaate.tasking.engine.centralized_engine import CentralizedTaskingEngine  # noqa: PLC0415
+    from resonaate.tasking.rewards import rewardsFactory  # noqa: PLC0415
+
+    while float(W.clock.time) < W.t_origin:
+        W.clock.ticToc()
+    prior = W.start + timedelta(seconds=W.t_origin)
+    when = prior + timedelta(seconds=DT_STEP)
+    ecfg = SensorAdditionEventConfig(scope="scenario_step", scope_instance_id=0, start_time=when, end_time=when,
+                                     event_type="sensor_addition", tasking_engine_id=ENGINE_ID, sensor_agent=agent_cfg)
+    db = getDBConnection()
+    for dep in ecfg.getDataDependencies():
+        if not db.getData(dep.query, multi=False):
+            db.insertData(dep.createDependency())
+    db.insertData(Event.concreteFromConfig(ecfg))
+    eng_cfg = W.scfg.engines[0]
+    engine = CentralizedTaskingEngine(ENGINE_ID, [], [10001], rewardsFactory(eng_cfg.reward), decisionFactory(eng_cfg.decision),
+                                      None, True)
+    sc = Scenario.__new__(Scenario)
+    sc.clock = W.clock
+    sc.scenario_config = W.scfg
+    sc._sensor_agents = {}  # noqa: SLF001
+    sc._tasking_engines = {ENGINE_ID: engine}  # noqa: SLF001
+    handleRelevantEvents(sc, db, EventScope.SCENARIO_STEP, datetimeToJulianDate(prior), datetimeToJulianDate(when),
+                         logging.getLogger("resonaate"))
+    W.event_engine = engine
+    W.event_agents = dict(sc._sensor_agents)  # noqa: SLF001
+    if agent_cfg["id"] not in W.event_agents:
+        raise EventLostError(f"agents after the event window: {sorted(W.event_agents)}")
+    return W.event_agents[agent_cfg["id"]]
+
+
+class EventLostError(RuntimeError):
+    """The sensor_addition event was stored but its sensor did not appear in the scenario."""
+
+
+def make_world(res, item, kind, host, epoch, over=None, via=None, **kw):
+    """World factory of the lattice families: a sensor that comes through the event round trip is first compared with
+    its configuration (check_roundtrip); returns None when the event produced no sensor."""
+    try:
+        W = World(kind, host, epoch, over, via=via, **kw)
+    except EventLostError as exc:
+        res.violate("event_roundtrip/added", {"fam": item[0], "kind": kind, "host": host, "via": via, "over": fw.jsonable(over or {})},
+                    signature="C02/event_roundtrip/added", observed=str(exc), item=item)
+        return None
+    except Exception as exc:  # noqa: BLE001
+        if not via:
+            raise
+        # a configuration that builds a sensor directly must also survive the event round trip
+        res.violate("event_roundtrip/raised", {"fam": item[0], "kind": kind, "host": host, "via": via, "over": fw.jsonable(over or {})},
+                    signature=f"C02/event_roundtrip/raised/{type(exc).__name__}", observed=f"{type(exc).__name__}: {exc}"[:400], item=item)
+        return None
+    if via:
+        check_roundtrip(res, W, item, {"fam": item[0]})
+    return W
+
+
+def _via_of(item, n):
+    """Optional trailing element of a work item: how the sensor is built (None = directly from its configuration)."""
+    return item[n] if len(item) > n else None
+
+
+def _flat(obj):
+    """Plain comparable view of a sensor attribute (numbers, arrays, nested objects by their own attributes)."""
+    if isinstance(obj, (bool, int, float, str)) or obj is None:
+        return obj
+    if isinstance(obj, (np.ndarray, list, tuple)):
+        return [float(x) if isinstance(x, (int, float, np.floating, np.integer)) else _flat(x) for x in np.asarray(obj, dtype=object).reshape(-1)]
+    if isinstance(obj, dict):
+        return {str(k): _flat(v) for k, v in sorted(obj.items(), key=lambda kv: str(kv[0]))}
+    if isinstance(obj, (np.floating, np.integer)):
+        return float(obj)
+    if hasattr(obj, "__dict__"):
+        return {"__class__": type(obj).__name__, **{k: _flat(v) for k, v in sorted(vars(obj).items()) if k not in ("_host",)}}
+    return repr(obj)
+
+
+_NO_LIMIT = {"minimum_range": 0.0, "maximum_range": math.inf}
+
+
+def check_roundtrip(res, W, item, ident):
+    """Every configured constraint of a sensor that went through the event round trip is the configured one.
+
+    Two independent readings: (a) the live sensor's constraint attributes against the requested configuration (units
+    converted here), (b) attribute by attribute against a twin built directly from the same configuration with
+    sensorFactory (the direct path is judged by the other families)."""
+    from resonaate.sensors import sensorFactory  # noqa: PLC0415
+
+    ident = dict(ident, via=W.via, kind=W.kind, host=W.host if isinstance(W.host, str) else list(W.host), over=fw.jsonable(W.over))
+    sa = W.sa
+    ok_added = sa is not None and list(W.event_agents) == [W.agent_cfg["id"]] and list(W.event_engine.sensor_list) == [W.agent_cfg["id"]]
+    res.case("event_roundtrip/added", ident, ok_added, nontrivial=True, signature="C02/event_roundtrip/added",
+             observed={"agents": list(W.event_agents), "engine_sensors": list(W.event_engine.sensor_list)},
+             expected=[W.agent_cfg["id"]], item=item)
+    if sa is None:
+        return False
+    s, sc, spec = sa.sensors, W.sensor_cfg, W.spec
+    want = {
+        "type": TYPE_STRING[W.kind],
+        "az_mask": [spec["az_mask"][0] * DEG, spec["az_mask"][1] * DEG],  # order matters (may wrap through north)
+        "el_mask": [x * DEG for x in spec["el_mask"]],
+        "slew_rate": spec["slew_rate"] * DEG,
+        "fov": list(spec["fov"][:1]) + [x * DEG for x in spec["fov"][1:]],
+        "minimum_range": sc.get("minimum_range"),
+        "maximum_range": sc.get("maximum_range"),
+        "background": W.background_flag,
+        "covariance": np.asarray(sc["covariance"], dtype=float).reshape(-1).tolist(),
+        "aperture_diameter": sc["aperture_diameter"],
+        "efficiency": sc["efficiency"],
+    }
+    fovo = s.field_of_view
+    got = {
+        "type": type(s).__name__,
+        "az_mask": [float(x) for x in s.az_mask],
+        "el_mask": [float(x) for x in s.el_mask],
+        "slew_rate": float(s.slew_rate),
+        "fov": (["conic", float(fovo.cone_angle)] if spec["fov"][0] == "conic" and hasattr(fovo, "cone_angle")
+                else ["rect", float(getattr(fovo, "azimuth_angle", math.nan)), float(getattr(fovo, "elevation_angle", math.nan))]),
+        "minimum_range": None if s.minimum_range is None else float(s.minimum_range),
+        "maximum_range": None if s.maximum_range is None else float(s.maximum_range),
+        "background": bool(s.calculate_background),
+        "covariance": np.asarray(s.r_matrix, dtype=float).reshape(-1).tolist(),
+        "aperture_diameter": float(s.aperture_diameter),
+        "efficiency": float(s.efficiency),
+    }
+    if W.kind == "optical":
+        want["detectable_vismag"] = spec["detectable_vismag"]
+        got["detectable_vismag"] = float(s.detectable_vismag)
+        if want["minimum_range"] is None:
+            got.pop("minimum_range"), want.pop("minimum_range")
+    else:
+        for k_cfg, k_spec in (("tx_power", "tx_power"), ("tx_frequency", "tx_frequency"), ("min_detectable_power", "min_detectable_power")):
+            want[k_cfg] = spec[k_spec]
+            got[k_cfg] = float(getattr(s, k_cfg))
+        want["minimum_range"] = spec["min_range"]  # documented default: half a wavelength
+    if want["maximum_range"] is None:
+        got.pop("maximum_range"), want.pop("maximum_range")
+
+    def same(a, b):
+        # degrees -> radians here and in the library may differ in the last bit; a JSON / REAL column round trip is exact
+        if isinstance(a, list):
+            return isinstance(b, list) and len(a) == len(b) and all(same(x, y) for x, y in zip(a, b))
+        if isinstance(a, float) and isinstance(b, (int, float)) and not isinstance(b, bool):
+            return abs(a - b) <= 4.0 * EPS * max(abs(a), abs(b))
+        return a == b
+
+    all_ok = True
+    for k in sorted(want):
+        ok = same(got[k], want[k])
+        all_ok &= ok
+        res.case("event_roundtrip/config", dict(ident, attribute=k), ok, nontrivial=True, signature=f"C02/event_roundtrip/config/{k}",
+                 observed=got[k], expected=want[k], outcome=f"roundtrip:{k}", item=item)
+    twin = _flat(sensorFactory(SensingAgentConfig(**W.agent_cfg).sensor))
+    live = _flat(s)
+    for k in sorted(set(twin) | set(live)):
+        if k in ("time_last_tasked", "__class__"):
+            continue  # the pointing clock starts when the sensor joins
+        tv, lv = twin.get(k), live.get(k)
+        if k in _NO_LIMIT:  # "no limit" is spelt None or 0 km / infinity: the same constraint
+            tv, lv = (_NO_LIMIT[k] if tv is None else tv), (_NO_LIMIT[k] if lv is None else lv)
+        ok = tv == lv
+        all_ok &= ok
+        res.case("event_roundtrip/twin", dict(ident, attribute=k), ok, nontrivial=True, signature=f"C02/event_roundtrip/twin/{k}",
+                 observed=live.get(k), expected=twin.get(k), item=item)
+    # a sensor that joins at t has not been tasked before t: its slew budget starts there (Sensor.host setter)
+    res.case("event_roundtrip/pointing_clock", ident, float(s.time_last_tasked) == W.t_origin, nontrivial=True,
+             signature="C02/event_roundtrip/pointing_clock", observed=float(s.time_last_tasked), expected=W.t_origin, item=item)
+    res.observe(got["az_mask"], got["el_mask"], got["slew_rate"])
+    return all_ok
 
 
 BAND_CENTRE = {"X": 10.0e9, "L": 1.5e9, "S": 3.0e9}  # IEEE 521 band centres that are unambiguous (8-12, 1-2, 2-4 GHz)
@@ -433,7 +658,9 @@ def attempt(res, W, case, item, fam):
         np.random.randn = saved
     ident = dict(case.get("id", {}))
     tag = f"/{ident['sig']}" if ident.get("sig") else ""  # configurations with a known, separately reported root cause
-    ident.update(fam=fam, kind=W.kind, host=W.host if isinstance(W.host, str) else list(W.host), t=W.t,
+    if W.via:
+        tag += "/via_event"  # the sensor went configuration -> sensor_addition event row -> Scenario.addSensor
+    ident.update(fam=fam, via=W.via, kind=W.kind, host=W.host if isinstance(W.host, str) else list(W.host), t=W.t,
                  start=W.start.isoformat(), over=fw.jsonable(W.over), n_bg=len(bgs), noise=list(noise) if noise else None)
     if out is None:
         res.violate("attempt/raised", ident, signature=f"C02/raised/{fam}/{err.split(':')[0]}", observed=err, item=item)
@@ -588,7 +815,11 @@ MASKS = {
     "MK1": {"azimuth_range": [350.0, 10.0], "elevation_range": [-89.9, 90.0]},  # wraps through north
     "MK2": {"azimuth_range": [90.0, 180.0], "elevation_range": [1.0, 89.0]},
     "MK3": {"azimuth_range": [0.0, 359.99], "elevation_range": [89.0, 1.0]},  # reversed elevation range
+    "MK4": {"azimuth_range": [300.0, 60.0], "elevation_range": [10.0, 80.0]},  # 120 deg sector through north
+    "MK5": {"azimuth_range": [200.0, 100.0], "elevation_range": [5.0, 60.0]},  # 260 deg sector through north
 }
+# masks of the sensors that come through a sensor_addition event: wrapping (narrow / 120 deg / 260 deg) and not wrapping
+EVENT_MASKS = ("MK1", "MK2", "MK4", "MK5")
 RANGES = {"R0": {}, "R1": {"minimum_range": 500.0, "maximum_range": 5000.0}}
 FOVS = {"c1": ("conic", 1.0), "c179": ("conic", 179.0), "r1": ("rect", 1.0, 1.0), "r20": ("rect", 20.0, 10.0)}
 KINDS = ["optical", "radar", "adv_radar"]
@@ -663,11 +894,13 @@ def _cases_A(W, tier, seed, mask, rng):
 
 
 def _run_A(res, item):
-    _f, kind, host, mask_id, rng_id, tier, seed = item
+    _f, kind, host, mask_id, rng_id, tier, seed = item[:7]
     over = dict(MASKS[mask_id])
     over.update(RANGES[rng_id])
-    over["fov"] = FOVS["r20"] if mask_id == "MK1" else FOVS["c1"]
-    W = World(kind, host, _epoch_for(kind, host), over)
+    over["fov"] = FOVS["r20"] if mask_id in ("MK1", "MK4") else FOVS["c1"]
+    W = make_world(res, item, kind, host, _epoch_for(kind, host), over, via=_via_of(item, 7))
+    if W is None:
+        return
     for line, az, el, rho in _cases_A(W, tier, seed, MASKS[mask_id], RANGES[rng_id]):
         tgt = W.place(az, el, rho)
         case = {"tgt": tgt, "prior": (W.initial_boresight, 0.0),
@@ -720,11 +953,13 @@ def _fov_target(W, az_p, el_p, how, rho):
 
 
 def _run_B(res, item):
-    _f, kind, host, fov_id, tier, seed = item
+    _f, kind, host, fov_id, tier, seed = item[:6]
     fov = FOVS[fov_id]
     over = {"fov": fov, "background_observations": True, "azimuth_range": [0.0, 359.9999],
             "elevation_range": [-89.9, 90.0] if host in SPACE else [1.0, 89.999]}
-    W = World(kind, host, _epoch_for(kind, host), over)
+    W = make_world(res, item, kind, host, _epoch_for(kind, host), over, via=_via_of(item, 6))
+    if W is None:
+        return
     for az_p, el_p, f, how in _cases_B(tier, seed, fov):
         est = W.place(az_p, el_p, 1000.0)
         tgt = _fov_target(W, az_p, el_p, how, 1010.0)
@@ -748,10 +983,13 @@ def _run_B(res, item):
 
 # ------------------------------------------------------------------------------------------------ family C: slew
 def _run_C(res, item):
-    _f, kind, host, rate, tier, seed = item
+    _f, kind, host, rate, tier, seed = item[:6]
+    via = _via_of(item, 6)
     over = {"slew_rate": rate, "background_observations": True, "fov": FOVS["r20"] if kind == "optical" else ("conic", 10.0),
             "azimuth_range": [0.0, 359.9999], "elevation_range": [-89.9, 90.0] if host in SPACE else [1.0, 89.999]}
-    W = World(kind, host, _epoch_for(kind, host), over)
+    W = make_world(res, item, kind, host, _epoch_for(kind, host), over, via=via)
+    if W is None:
+        return
     ph = _phase(seed, 3)
     bases = [(40.0 + ph, 30.0), (350.0, 60.0), (200.0 + ph, 75.0)]
     fracs = [0.0, 0.5, 0.98, 1.02, 2.0]
@@ -792,7 +1030,9 @@ def _run_C(res, item):
                         "id": {"base": [az_b, el_b], "frac": f, "mode": mode, "rate": rate, "slew_deg": ang}}
                 attempt(res, W, case, item, "C")
     # untouched sensor: initial boresight, last tasked at scenario start
-    W2 = World(kind, host, _epoch_for(kind, host), dict(over, **MASKS["MK2"]))
+    W2 = make_world(res, item, kind, host, _epoch_for(kind, host), dict(over, **MASKS["MK2"]), via=via)
+    if W2 is None:
+        return
     for az, el in ((135.0, 45.0), (95.0, 5.0), (45.0, 45.0), (315.0, 45.0)):
         est = W2.place(az, el, 1000.0)
         case = {"tgt": est.copy(), "est": est, "bg": [W2.place(az + 0.2, el, 1001.0)], "prior": None,
@@ -828,10 +1068,12 @@ def _radar_max_range(spec, area):
 
 
 def _run_D(res, item):
-    _f, kind, host, variant, tier, seed = item
+    _f, kind, host, variant, tier, seed = item[:6]
     over = dict(RADAR_VARIANTS[variant])
     over.update({"azimuth_range": [0.0, 359.9999], "elevation_range": [-89.9, 90.0] if host in SPACE else [1.0, 89.999]})
-    W = World(kind, host, "day", over)
+    W = make_world(res, item, kind, host, "day", over, via=_via_of(item, 6))
+    if W is None:
+        return
     ph = _phase(seed, 4)
     fr = [0.5, 0.999, 1.001, 2.0]
     if tier == "thorough":
@@ -878,7 +1120,8 @@ def _unit_at(axis, ang, psi):
 
 def _run_E_ground(res, item):
     """Site darkness, umbra, limiting magnitude, galactic exclusion for a ground-based optical sensor."""
-    _f, what, tier, seed = item
+    _f, what, tier, seed = item[:4]
+    via = _via_of(item, 4)
     ph = _phase(seed, 5)
     deltas = [1e-3, 1e-2] if tier == "quick" else [1e-5, 1e-4, 1e-3, 1e-2, 5e-2]
     base_over = {"azimuth_range": [0.0, 359.9999], "elevation_range": [1.0, 89.999], "fov": ("conic", 10.0)}
@@ -942,7 +1185,9 @@ def _run_E_ground(res, item):
                                       probe.initial_boresight, T_OBS, probe.tprops[pool][0], probe.tprops[pool][1], probe.sun)
             mag = geo["vismag"]
             for d_mag in [-0.01, 0.01] + ([-1e-6, 1e-6, -1.0, 1.0] if tier == "thorough" else [-1.0, 1.0]):
-                W = World("optical", "mid", "night", dict(base_over, detectable_vismag=mag + d_mag))
+                W = make_world(res, item, "optical", "mid", "night", dict(base_over, detectable_vismag=mag + d_mag), via=via)
+                if W is None:
+                    continue
                 case = {"tgt": tgt, "tgt_pool": pool, "prior": (W.initial_boresight, 0.0),
                         "id": {"what": what, "mag": mag, "limit_minus_mag": d_mag, "area": W.tprops[pool][0]}}
                 attempt(res, W, case, item, "E")
@@ -1024,13 +1269,15 @@ def _run_E_los(res, item, over, ph):
 
 # ------------------------------------------------------------------------------------------------ family F: noise
 def _run_F(res, item):
-    _f, kind, host, cov_id, tier, seed = item
+    _f, kind, host, cov_id, tier, seed = item[:6]
     n = len(LABELS[kind])
     cov = {"diag": scen.OPT_COV if kind == "optical" else scen.RADAR_COV,
            "full": OPT_COV_FULL if kind == "optical" else RADAR_COV_FULL}[cov_id]
     over = {"covariance": cov, "background_observations": True, "fov": ("conic", 10.0),
             "azimuth_range": [0.0, 359.9999], "elevation_range": [-89.9, 90.0] if host in SPACE else [1.0, 89.999]}
-    W = World(kind, host, _epoch_for(kind, host), over)
+    W = make_world(res, item, kind, host, _epoch_for(kind, host), over, via=_via_of(item, 6))
+    if W is None:
+        return
     ph = _phase(seed, 7)
     if host in SPACE:
         spots = [(100.0 + ph, 30.0, 3000.0), (0.0, 60.0, 2000.0), (250.0 + ph, 10.0, 5000.0)]
@@ -1809,6 +2056,236 @@ def _run_S(res, item):
     res.extra["db_missed_rows"] = res.extra.get("db_missed_rows", 0) + len(miss_rows)
 
 
+# ------------------------------------------------------------------------------------------------ family M: engines
+M_VARIANTS = ("two", "two_rev", "three", "three_rot", "pair", "joined")
+M_RATES = (0.2, 0.35)  # deg/s: 12 / 21 deg per 60 s step - one / two ~10 deg hops of the belts below per step
+GEO_ALT = 35786.0
+
+
+def _belt(start, first_id, lons):
+    """Geostationary targets (fixed on a ground sensor's sky) at the given sub-satellite longitudes."""
+    out = []
+    for j, lon in enumerate(lons):
+        tc = scen.target_eci(first_id + j, *scen.overhead_orbit(start, 0.0, lon, GEO_ALT, 90.0))
+        tc["platform"].update(visual_cross_section=25.0, reflectivity=0.3, mass=500.0)
+        out.append(tc)
+    return out
+
+
+def _m_config(variant, rate, start, n_steps, ph):
+    """Engines (in configuration order), sensors added by event, per-variant description."""
+    cone = {"fov_shape": "conic", "cone_angle": 4.0}
+    strong = {"tx_power": 1.0e9}  # radar sensitivity out of the way at geostationary range: pointing decides
+    # engine "west": a slow radar at 35 N 0 E; the belt 0, 9 W, 18 W, 27 W is a chain of ~10 deg hops on its sky, the
+    # target at 50 W is ~55 deg from the first one
+    d = 0.5 * ph / 30.0  # phase of the lattice: the whole belt moves by up to half a degree
+    s_w = scen.ground_sensor(20001, 35.0, 0.0, kind="adv_radar", fov=cone, slew_rate=rate, **strong)
+    t_w = _belt(start, 10001, [0.0 + d, -9.0 + d, -18.0 + d, -27.0 + d, -50.0])
+    # engine "south": a slow radar at 30 S 20 E looking north (mask wraps through north), belt 20 E ... 47 E and 75 E
+    s_s = scen.ground_sensor(20011, -30.0, 20.0, kind="radar", fov=cone, slew_rate=rate, azimuth_range=[270.0, 90.0], **strong)
+    t_s = _belt(start, 10011, [20.0 - d, 29.0 - d, 38.0 - d, 47.0 - d, 75.0])
+    # engine "east": a slow telescope at 35 N 45 E (night), belt 45 E ... 18 E and 100 E
+    s_e = scen.ground_sensor(20021, 35.0, 45.0, kind="optical", fov=cone, slew_rate=rate)
+    t_e = _belt(start, 10021, [45.0 + d, 36.0 + d, 27.0 + d, 18.0 + d, 100.0])
+    # a second slow radar of the west engine (two sensors share one belt)
+    s_w2 = scen.ground_sensor(20002, 33.0, -4.0, kind="radar", fov=cone, slew_rate=rate, **strong)
+    # a slow radar that joins the west engine through a sensor_addition event; its azimuth mask wraps through north
+    # ([100, 260] clockwise would be the southern sky; [260, 100] is everything but a 160 deg sector to the south ...
+    # the belt lies to the south of a northern site, so the joining sensor sits in the southern hemisphere)
+    s_add = scen.ground_sensor(20031, -25.0, -10.0, kind="adv_radar", fov=cone, slew_rate=rate, azimuth_range=[300.0, 60.0],
+                               elevation_range=[20.0, 80.0], **strong)
+    west = lambda eid, sensors=None: scen.engine(eid, t_w, sensors or [s_w])  # noqa: E731
+    south = lambda eid: scen.engine(eid, t_s, [s_s])  # noqa: E731
+    east = lambda eid: scen.engine(eid, t_e, [s_e])  # noqa: E731
+    events = []
+    if variant == "two":
+        engines = [west(1), south(2)]
+    elif variant == "two_rev":
+        engines = [south(2), west(1)]
+    elif variant == "three":
+        engines = [west(5), east(3), south(9)]
+    elif variant == "three_rot":
+        engines = [south(9), west(5), east(3)]
+    elif variant == "pair":
+        engines = [west(4, [s_w, s_w2]), east(2)]
+    elif variant == "joined":
+        engines = [west(4), south(7)]
+        events = [{"scope": "scenario_step", "scope_instance_id": 0, "start_time": scen.iso(start + timedelta(seconds=120)),
+                   "end_time": scen.iso(start + timedelta(seconds=120)), "event_type": "sensor_addition", "tasking_engine_id": 4,
+                   "sensor_agent": s_add}]
+    else:
+        raise ValueError(variant)
+    cfg = scen.config(start, n_steps + 1, engines, physics=60, observation={"background": True}, seed=3, events=events)
+    return cfg, engines, ([s_add] if events else [])
+
+
+def _run_M(res, item):
+    """Scenarios with two / three tasking engines and slew rates that bind: the pointing history of every sensor is
+    replayed by the oracle from the records of every step (decision matrices, the engines' observation / miss lists,
+    the estimates the sensors were pointed at, the truth states): after every step the boresight and last-tasked time of
+    every SensingAgent of the Scenario must be those of its last feasible tasked attempt, every reported observation
+    must pass every constraint INCLUDING slew reachability from the replayed previous pointing, every miss must state a
+    failing constraint; at the end the rows of the database must be the records of the steps."""
+    from resonaate.physics.time.stardate import datetimeToJulianDate  # noqa: PLC0415
+    from sqlalchemy.orm import Query  # noqa: PLC0415
+
+    _f, variant, rate, tier, seed = item
+    start = EPOCHS["aug"]
+    ph = _phase(seed, 12)
+    n_steps = 6 if tier == "quick" else 10
+    cfg, engines, added = _m_config(variant, rate, start, n_steps, ph)
+    sensor_cfgs = {c["id"]: c for e in engines for c in e["sensors"]}
+    sensor_cfgs.update({c["id"]: c for c in added})
+    specs = {sid: _spec_from_cfg(c, False) for sid, c in sensor_cfgs.items()}
+    props = {t["id"]: (t["platform"]["visual_cross_section"], t["platform"]["reflectivity"]) for e in engines for t in e["targets"]}
+    sc = scen.build(cfg)
+    order = list(sc._tasking_engines)  # noqa: SLF001  (the order in which stepForward visits the engines)
+    place = {eid: ("last" if k == len(order) - 1 else "first" if k == 0 else "middle") for k, eid in enumerate(order)}
+    # the replayed pointing state of every sensor: (boresight unit vector in its horizon frame, time last tasked)
+    replay = {}
+    for sid, agent in sc.sensor_agents.items():
+        sp = specs[sid]
+        want, _a, _e = og.initial_boresight(sp["az_mask"], sorted(sp["el_mask"]))
+        replay[sid] = (np.array(want, dtype=float), 0.0)
+    stats = {"tasked": 0, "idle": 0, "obs": 0, "miss": 0, "hops": [], "binding": 0, "joined_obs": 0}
+    joined = {c["id"] for c in added}
+    all_records = {"obs": [], "miss": []}
+    for k in range(1, n_steps + 1):
+        t = 60.0 * k
+        utc = start + timedelta(seconds=t)
+        sc.propagateTo(datetimeToJulianDate(utc))
+        sun = np.asarray(Sun.getPosition(og.julian_date(utc)), dtype=float).reshape(-1)[:3]
+        for sid in sc.sensor_agents:
+            if sid not in replay:  # joined during this step (sensor_addition event): not tasked before it exists
+                sp = specs[sid]
+                want, _a, _e = og.initial_boresight(sp["az_mask"], sorted(sp["el_mask"]))
+                replay[sid] = (np.array(want, dtype=float), t - 60.0)
+        engine_of = {}
+        tasked = {}
+        records = {}
+        for eid, eng in sc._tasking_engines.items():  # noqa: SLF001
+            for sid, si in eng.sensor_indices.items():
+                engine_of[sid] = eid
+                tasked.setdefault(sid, [])
+                for tid, ti in eng.target_indices.items():
+                    if eng.decision_matrix[ti, si]:
+                        tasked[sid].append(tid)
+            for o in eng.observations:
+                records.setdefault(o.sensor_id, {"obs": [], "miss": []})["obs"].append(o)
+                all_records["obs"].append((o.sensor_id, o.target_id, k))
+            for m in eng.missed_observations:
+                records.setdefault(m.sensor_id, {"obs": [], "miss": []})["miss"].append(m)
+                all_records["miss"].append((m.sensor_id, m.target_id, k, m.reason))
+        for sid, agent in sorted(sc.sensor_agents.items()):
+            eid = engine_of.get(sid)
+            ident = {"fam": "M", "variant": variant, "rate": rate, "step": k, "t": t, "sensor": sid, "engine": eid,
+                     "engine_position": place.get(eid), "n_engines": len(order), "kind": specs[sid]["kind"]}
+            rec = records.get(sid, {"obs": [], "miss": []})
+            b_prev, t_prev = replay[sid]
+            tids = tasked.get(sid, [])
+            ok_one = len(tids) <= 1
+            res.case("multi_engine/one_task_per_sensor", dict(ident, tasked=tids), ok_one, signature="C02/multi_engine/one_task_per_sensor",
+                     observed=tids, item=item)
+            if not ok_one:
+                replay[sid] = (np.array(agent.sensors.boresight, dtype=float), float(agent.sensors.time_last_tasked))
+                continue
+            fr = og.Frame(np.array(agent.eci_state, dtype=float), utc, eci2ecef)
+            slew_status = None
+            if tids:
+                tid = tids[0]
+                stats["tasked"] += 1
+                est = np.array(sc.estimate_agents[tid].nominal_filter.pred_x, dtype=float)
+                truth = np.array(sc.target_agents[tid].eci_state, dtype=float)
+                st, mg, geo = og.evaluate(specs[sid], fr, truth, est, b_prev, t - t_prev, *props[tid], sun)
+                fail, either = _failing(st), _either(st)
+                slew_status = st["slew"]
+                hop = math.degrees(geo["slew_angle"])
+                reach = specs[sid]["slew_rate"] * (t - t_prev)
+                stats["hops"].append(round(hop, 2))
+                # the slew rate shapes this step when some target of the sensor's engine is out of reach
+                eng_targets = list(sc._tasking_engines[eid].target_indices)  # noqa: SLF001
+                far = [t2 for t2 in eng_targets if math.degrees(vg.angle_between(
+                    fr.sez(np.array(sc.target_agents[t2].eci_state, dtype=float))[:3], list(b_prev))) > reach]
+                stats["binding"] += bool(far)
+                cid = dict(ident, target=tid, failing=fail, either=either, hop_deg=hop, reach_deg=reach, last_tasked=t_prev,
+                           out_of_reach=far)
+                n_o = sum(1 for o in rec["obs"] if o.target_id == tid)
+                reasons = [m.reason for m in rec["miss"] if m.target_id == tid]
+                res.case("multi_engine/one_record", cid, n_o + len(reasons) == 1, nontrivial=True,
+                         signature=f"C02/multi_engine/one_record/obs={n_o}/miss={len(reasons)}", observed=[n_o, reasons],
+                         outcome=f"M:{'obs' if n_o else 'miss'}", item=item)
+                if n_o:
+                    stats["obs"] += 1
+                    stats["joined_obs"] += sid in joined
+                    # clause (i) with the TRUE previous pointing: reachable within slew_rate x time since the last slew
+                    res.case("multi_engine/obs_constraints", cid, not fail, nontrivial=True,
+                             signature=f"C02/multi_engine/obs_constraints/{'+'.join(fail) or 'none'}/engine_{place.get(eid)}",
+                             observed={"reported": "Observation", "margins": {c: mg[c] for c in fail}},
+                             expected="no failing constraint (slew: hop <= reach from the previous pointing)",
+                             outcome="M:obs_ok" if not fail else f"M:obs_{'+'.join(fail)}", item=item)
+                    if either:
+                        res.either_way += 1
+                for r_ in reasons:
+                    stats["miss"] += 1
+                    cname = og.CONSTRAINT_OF_REASON.get(r_)
+                    ok = st.get(cname) in ("fail", "either")
+                    res.case("multi_engine/miss_reason", dict(cid, reason=r_), ok, nontrivial=True,
+                             signature=f"C02/multi_engine/miss_reason/{cname or 'unknown'}/not_failing/engine_{place.get(eid)}",
+                             observed=r_, expected=fail, outcome=f"M:miss_{cname}", item=item)
+                # serendipitous observations of this sensor: same pointing, same previous boresight
+                for o in rec["obs"]:
+                    if o.target_id == tid:
+                        continue
+                    tr2 = np.array(sc.target_agents[o.target_id].eci_state, dtype=float)
+                    s2, m2, _g2 = og.evaluate(specs[sid], fr, tr2, est, b_prev, t - t_prev, *props[o.target_id], sun)
+                    f2 = _failing(s2)
+                    res.case("multi_engine/background_constraints", dict(cid, background=o.target_id, failing=f2), not f2,
+                             nontrivial=True, signature=f"C02/multi_engine/background_constraints/{'+'.join(f2) or 'none'}",
+                             observed={c: m2[c] for c in f2}, item=item)
+                if slew_status == "pass":
+                    replay[sid] = (np.array(geo["pointing_unit"], dtype=float), t)
+                elif slew_status == "either":
+                    res.either_way += 1
+                    replay[sid] = (np.array(agent.sensors.boresight, dtype=float), float(agent.sensors.time_last_tasked))
+                res.observe(sid, tid, n_o, reasons, round(hop, 6))
+            else:
+                stats["idle"] += 1
+                stray = [(o.target_id) for o in rec["obs"]] + [(m.target_id, m.reason) for m in rec["miss"]]
+                res.case("multi_engine/idle_no_records", ident, not stray, nontrivial=True, signature="C02/multi_engine/idle_records",
+                         observed=stray, expected=[], item=item)
+            # ---- the Scenario's own SensingAgent after the step: boresight / time_last_tasked of the last feasible attempt
+            if slew_status != "either":
+                b_want, t_want = replay[sid]
+                b_live = np.array(agent.sensors.boresight, dtype=float)
+                t_live = float(agent.sensors.time_last_tasked)
+                # 1e-9: the pointing is the unit vector of one rotated difference of positions (rounding 1e-15)
+                ok = fw.maxabs(b_live, b_want) <= 1e-9 and t_live == t_want
+                mode = "idle" if not tids else ("slewed" if slew_status == "pass" else "refused")
+                res.case("multi_engine/pointing_state", dict(ident, mode=mode), ok, nontrivial=True,
+                         signature=f"C02/multi_engine/pointing_state/{mode}/engine_{place.get(eid)}",
+                         observed={"boresight": b_live.tolist(), "time_last_tasked": t_live},
+                         expected={"boresight": b_want.tolist(), "time_last_tasked": t_want}, outcome=f"M:state_{mode}", item=item)
+                res.observe(b_live, t_live)
+    # the variant exists for pointing histories in which the slew rate decides: they must be there
+    res.case("multi_engine/histories_present", {"fam": "M", "variant": variant, "rate": rate, "stats": {k_: v for k_, v in stats.items() if k_ != "hops"}},
+             stats["obs"] >= 2 * len(order) and stats["binding"] >= 2 and len(order) >= 2
+             and (not joined or stats["joined_obs"] >= 2), nontrivial=True,
+             signature="C02/multi_engine/histories_present", observed=stats, item=item)
+    # the rows of the database are the records of the steps
+    jd0 = float(sc.clock.julian_date_start)
+    d_obs = sorted((o.sensor_id, o.target_id, round((o.julian_date - jd0) * 1440.0)) for o in sc.database.getData(Query(Observation)))
+    d_miss = sorted((m.sensor_id, m.target_id, round((m.julian_date - jd0) * 1440.0), m.reason)
+                    for m in sc.database.getData(Query(MissedObservation)))
+    res.case("multi_engine/rows", {"fam": "M", "variant": variant}, d_obs == sorted(all_records["obs"]) and d_miss == sorted(all_records["miss"]),
+             nontrivial=True, signature="C02/multi_engine/rows", observed={"obs": len(d_obs), "miss": len(d_miss)},
+             expected={"obs": len(all_records["obs"]), "miss": len(all_records["miss"])}, item=item)
+    for sid in [c["id"] for c in added]:
+        res.case("multi_engine/joined_sensor_present", {"fam": "M", "variant": variant, "sensor": sid}, sid in sc.sensor_agents,
+                 nontrivial=True, signature="C02/multi_engine/joined_sensor_missing", item=item)
+    res.extra["multi_engine_tasked_attempts"] = res.extra.get("multi_engine_tasked_attempts", 0) + stats["tasked"]
+    res.extra["multi_engine_hops_deg"] = res.extra.get("multi_engine_hops_deg", []) + [[variant, rate, stats["hops"]]]
+
+
 # ================================================================================================ items
 def items(tier, seed):
     out = []
@@ -1820,6 +2297,31 @@ def items(tier, seed):
                     out.append(("A", kind, host, mk, rg, tier, seed))
     for kind in KINDS:
         out.append(("A", kind, "mid", "MK3", "R0", tier, seed))
+        for mk in ("MK4", "MK5"):
+            out.append(("A", kind, "mid", mk, "R0", tier, seed))
+    # ---- the same lattices for sensors that join through a sensor_addition event (event handled at t = 0 / 60 s)
+    n = 0
+    for ki, kind in enumerate(KINDS):
+        for hi, host in enumerate(("mid", "south", "leo_inc") if tier == "quick" else ("mid", "south", "leo_inc", "eq", "polar", "geo")):
+            for mi, mk in enumerate(EVENT_MASKS):
+                # every mask meets both range settings and both handling times, every kind and host likewise
+                out.append(("A", kind, host, mk, ("R0", "R1")[(hi + mi) % 2], tier, seed,
+                            ("event0", "event60")[(ki + hi + mi // 2) % 2]))
+    for ki, kind in enumerate(KINDS):
+        for k, fov_id in enumerate(FOVS):
+            for host in ((("mid", "leo_inc")[(k + ki) % 2],) if tier == "quick" else ("mid", "leo_inc")):
+                out.append(("B", kind, host, fov_id, tier, seed, ("event0", "event60")[(k // 2 + ki) % 2]))
+    for ki, kind in enumerate(KINDS):
+        for k, rate in enumerate((0.01, 0.5)):
+            for hi, host in enumerate(("mid", "leo_inc")):
+                out.append(("C", kind, host, rate, tier, seed, ("event0", "event60")[(ki + k + hi) % 2]))
+    for ki, kind in enumerate(("radar", "adv_radar")):
+        for k, variant in enumerate(RADAR_VARIANTS):
+            out.append(("D", kind, ("mid", "leo_inc")[(k + ki) % 2] if variant != "lowfreq" else "mid", variant, tier, seed,
+                        ("event0", "event60")[(k // 2 + ki) % 2]))
+    out.append(("Eg", "vizmag", tier, seed, "event0"))
+    for kind in KINDS:
+        out.append(("F", kind, "mid", "full", tier, seed, "event60"))
     for kind in KINDS:
         for host in (("mid", "eq", "leo_inc") if tier == "quick" else ("mid", "eq", "leo_inc", "polar", "geo")):
             for fov_id in FOVS:
@@ -1853,6 +2355,10 @@ def items(tier, seed):
         out.append(("H", kind, tier, seed))
     for variant in ("wide", "narrow", "shared", "shared_bg", "shared_out2", "companion"):
         out.append(("S", variant, tier, seed))
+    for variant in M_VARIANTS:
+        for rate in M_RATES:
+            if tier == "thorough" or rate == M_RATES[0] or variant in ("three", "pair"):
+                out.append(("M", variant, rate, tier, seed))
     return out
 
 
@@ -1871,6 +2377,31 @@ def bounds(tier, seed):
         "range_limits": RANGES,
         "fov": FOVS,
         "slew_rates_deg_s": [0.01, 0.5, 3.0],
+        "sensor_built_via": {"direct": "SensingAgent.fromConfig on the configuration",
+                             "event0": "sensor_addition event round trip, handled at scenario time 0 s",
+                             "event60": "sensor_addition event round trip, handled at scenario time 60 s"},
+        "event_round_trip": {
+            "path": "SensorAdditionEventConfig -> Event.concreteFromConfig -> insertData (+AgentModel dependency) -> "
+                    "handleRelevantEvents(step window) -> SensorAdditionEvent.handleEvent -> Scenario.addSensor",
+            "masks": {k: MASKS[k] for k in EVENT_MASKS},
+            "work_items": sorted({(it[0], it[-1]) for it in its if str(it[-1]).startswith("event")}),
+            "n_work_items": sum(1 for it in its if str(it[-1]).startswith("event")),
+            "compared_after_round_trip": ["type", "az_mask (ordered)", "el_mask", "slew_rate", "fov shape and angles",
+                                          "minimum_range", "maximum_range", "background flag", "covariance",
+                                          "aperture_diameter", "efficiency", "tx_power", "tx_frequency",
+                                          "min_detectable_power", "detectable_vismag", "every attribute of a directly built twin"],
+        },
+        "multi_engine": {
+            "variants": {"two": "engines [west, south]", "two_rev": "engines [south, west]",
+                         "three": "engines [west, east(optical), south]", "three_rot": "engines [south, west, east(optical)]",
+                         "pair": "engines [west with two radars, east(optical)]",
+                         "joined": "engines [west, south]; a radar with azimuth mask [300, 60] joins west by event at 120 s"},
+            "work_items": [list(it[1:3]) for it in its if it[0] == "M"],
+            "slew_rates_deg_s": list(M_RATES),
+            "belts_sub_satellite_longitude_deg": {"west (35N 0E)": [0, -9, -18, -27, -50], "south (30S 20E, mask [270, 90])": [20, 29, 38, 47, 75],
+                                                   "east (35N 45E)": [45, 36, 27, 18, 100]},
+            "steps": 6 if tier == "quick" else 10,
+        },
         "radar_variants": RADAR_VARIANTS,
         "azimuth_fill_deg": _az_fill(seed),
         "fov_fractions": [0.5, 0.98, 1.02] + ([0.999, 1.001, 1.5] if tier == "thorough" else []),
@@ -1899,7 +2430,7 @@ def bounds(tier, seed):
 
 
 _RUN = {"A": _run_A, "B": _run_B, "C": _run_C, "D": _run_D, "Eg": _run_E_ground, "Es": _run_E_space, "F": _run_F,
-        "Gm": _run_G_measure, "Gs": _run_G_static, "Gp": _run_G_predict, "Gf": _run_G_from_measurement, "H": _run_H, "S": _run_S}
+        "Gm": _run_G_measure, "Gs": _run_G_static, "Gp": _run_G_predict, "Gf": _run_G_from_measurement, "H": _run_H, "S": _run_S, "M": _run_M}
 
 
 def run_item(item):
